@@ -401,6 +401,42 @@ pub enum Leaf<'a, T> {
 impl<'a, T: CellT> Leaf<'a, T> {
     /// `None` = the call does not exist for this receiver / element type (case skipped).
     pub fn call(&mut self, cx: &Ctx, op: &str, a: &Value, conc: &[usize]) -> Option<Value> {
+        if op == "debug" {
+            // Debug lists the rows: compared with the rendering of the rows gathered cell by cell
+            fn dbg<T: CellT, R: TooDeeOps<T>>(r: &R, shown: String) -> Value {
+                let mut g = grid_res::<T, R>(r);
+                let (nc, nr) = r.size();
+                if (nc == 0) == (nr == 0) {
+                    let rows: Vec<Vec<&T>> = (0..nr).map(|y| (0..nc).map(|x| &r[(x, y)]).collect()).collect();
+                    if shown != format!("{:?}", rows) {
+                        g["notes"] = json!({"debug_differs": shown});
+                    }
+                }
+                g
+            }
+            return match self {
+                Leaf::Owned(t) => Some(dbg::<T, _>(&**t, format!("{:?}", &**t))),
+                Leaf::VM(t) => Some(dbg::<T, _>(&*t, format!("{:?}", &*t))),
+                Leaf::V(t) => Some(dbg::<T, _>(&*t, format!("{:?}", &*t))),
+                Leaf::Plain(_) => None,
+            };
+        }
+        if op == "as_view" {
+            // From<TooDeeViewMut> for TooDeeView: the shared view of the same window
+            return match self {
+                Leaf::Owned(t) => {
+                    let z = t.size();
+                    let v: TooDeeView<'_, T> = t.view_mut((0, 0), z).into();
+                    Some(grid_res::<T, _>(&v))
+                }
+                Leaf::VM(t) => {
+                    let z = t.size();
+                    let v: TooDeeView<'_, T> = t.view_mut((0, 0), z).into();
+                    Some(grid_res::<T, _>(&v))
+                }
+                _ => None,
+            };
+        }
         let r = match self {
             Leaf::Owned(t) => read_call::<T, _>(cx, &**t, op, a, conc),
             Leaf::Plain(t) => read_call::<T, _>(cx, &**t, op, a, conc),
